@@ -60,6 +60,8 @@ MarkDev(c, d) == IF d THEN [c EXCEPT !.dev = TRUE] ELSE c
 
 \* turn an operation result (R / E, with dev flag) into the next control
 Result(c, r) == MarkDev(SetCtrl(c, IF r.k = "v" THEN Ret(r.v) ELSE Raise(r.cs, "")), r.dev)
+\* the same, with the name an error carries (the missing key; the function that failed)
+ResultN(c, r, n) == MarkDev(SetCtrl(c, IF r.k = "v" THEN Ret(r.v) ELSE Raise(r.cs, n)), r.dev)
 
 BinOps == [ f \in {"_+_", "_-_", "_*_", "_/_", "_%_", "_==_", "_!=_", "_<_", "_<=_", "_>_", "_>=_", "@in", "_[_]"} |->
             CASE f = "_+_" -> "add" [] f = "_-_" -> "sub" [] f = "_*_" -> "mul" [] f = "_/_" -> "div"
@@ -114,8 +116,8 @@ Invoke(c, F) ==
       extra == used < Len(x.call.args) /\ ~(\E i \in 1..Len(fd.sig) : fd.sig[i].x = "args")
       c1   == MarkDev(c, extra)
   IN  IF fd.kind = "host"
-      THEN Result([c1 EXCEPT !.log = Append(@, [f |-> x.call.fn, a |-> x.got])], HostResult(fd.beh, x.got))
-      ELSE Result(c1, BF!Builtin(x.call.fn, x.got))
+      THEN ResultN([c1 EXCEPT !.log = Append(@, [f |-> x.call.fn, a |-> x.got])], HostResult(fd.beh, x.got), x.call.fn)
+      ELSE ResultN(c1, BF!Builtin(x.call.fn, x.got), x.call.fn)
 
 -----------------------------------------------------------------------------
 (* The step relation *)
@@ -153,6 +155,12 @@ EvalStep(c, F) ==
               ELSE IF e.tgt.k # "none" THEN { Push(c1, [f |-> "recv", call |-> e], e.tgt) }
               ELSE { SetCtrl(c1, Ext(e, NoThis, 1, 1, << >>)) }
 
+\* A receiver / argument of the wrong kind: a type error.  Whether the remaining arguments (from index `from`)
+\* are still evaluated first is not pinned (lazy extraction here, eager evaluation would be as good): if one of
+\* them could raise or log, the outcome is left open (envelope xi).
+ConvFail(c, call, from) ==
+  MarkDev(SetCtrl(c, Raise({"type"}, "")), \E i \in from..Len(call.args) : ~IsPureArg(call.args[i]) /\ call.args[i].k # "id")
+
 \* one extractor of the callee's signature
 ExtStep(c, F) ==
   LET x == c.ctrl
@@ -164,7 +172,7 @@ ExtStep(c, F) ==
            IN
            CASE p.x = "this" ->
                   IF x.this # NoThis THEN
-                       { IF Conv(x.this, p.ty) THEN next(x.this, x.ai) ELSE SetCtrl(c, Raise({"type"}, "")) }
+                       { IF Conv(x.this, p.ty) THEN next(x.this, x.ai) ELSE ConvFail(c, call, 1) }
                   ELSE IF x.ai > Len(call.args) THEN { SetCtrl(c, Raise({"type"}, "")) }     \* missing argument or target
                   ELSE { Push(c, [f |-> "xarg", x |-> x, ty |-> p.ty, mask |-> TRUE], call.args[x.ai]) }
              [] p.x = "arg" ->
@@ -196,7 +204,7 @@ RetStep(c, F) ==
     [] fr.f = "binL" -> { Push(c0, [f |-> "binR", op |-> fr.op, l |-> v], fr.r) }
     [] fr.f = "binR" -> { Result(c0, ApplyBin(fr.op, fr.l, v)) }
     [] fr.f = "un"   -> { Result(c0, ApplyUn(fr.op, v)) }
-    [] fr.f = "sel"  -> { Result(c0, IF fr.test THEN HasOp(v, fr.fcp) ELSE SelectOp(v, fr.fcp, fr.field \in DOMAIN F)) }
+    [] fr.f = "sel"  -> { ResultN(c0, IF fr.test THEN HasOp(v, fr.fcp) ELSE SelectOp(v, fr.fcp, fr.field \in DOMAIN F), fr.field) }
     [] fr.f = "list" -> LET acc == Append(fr.acc, v) IN
                         { IF fr.i = Len(fr.es) THEN SetCtrl(c0, Ret(VList(acc)))
                           ELSE Push(c0, [fr EXCEPT !.i = @ + 1, !.acc = acc], fr.es[fr.i + 1]) }
@@ -209,7 +217,7 @@ RetStep(c, F) ==
                               ELSE Push(c1, [f |-> "mapK", es |-> fr.es, i |-> fr.i + 1, acc |-> acc], fr.es[fr.i + 1][1]) }
     [] fr.f = "recv" -> { SetCtrl(c0, Ext(fr.call, v, 1, 1, << >>)) }
     [] fr.f = "xarg" -> { IF Conv(v, fr.ty) THEN SetCtrl(c0, Ext(fr.x.call, fr.x.this, fr.x.si + 1, fr.x.ai + 1, Append(fr.x.got, v)))
-                          ELSE SetCtrl(c0, Raise({"type"}, "")) }
+                          ELSE ConvFail(c0, fr.x.call, fr.x.ai + 1) }
     [] fr.f = "xall" -> LET acc == Append(fr.acc, v)
                             n == Len(fr.x.call.args) IN
                         { IF fr.j = n THEN SetCtrl(c0, Ext(fr.x.call, fr.x.this, fr.x.si + 1, fr.x.ai, Append(fr.x.got, VList(acc))))
